@@ -576,6 +576,10 @@ func (dht *FullRT) GetClosestPeers(ctx context.Context, key string) ([]peer.ID, 
 					if _, ok := ipGroupCounts[ipGroup]; !ok {
 						ipGroupCounts[ipGroup] = make(map[peer.ID]struct{})
 					}
+					if _, ok := ipGroupCounts[ipGroup][p]; ok {
+						// Another address of this peer in the same group: a peer counts once
+						continue
+					}
 					if len(ipGroupCounts[ipGroup]) >= dht.ipDiversityFilterLimit {
 						// This ip group is already overrepresented, skip this peer
 						continue PeersLoop
